@@ -594,6 +594,7 @@ Proof.
   intros st st' evs G H. cbn in H.
   destruct (threads st) eqn:Et; [|discriminate].
   destruct (mgr_up st) eqn:Em; [discriminate|].
+  destruct (loop st) eqn:Eloop; [discriminate|]. cbn in H.
   assert (Hcr : created st = true).
   { destruct (created st) eqn:E; [reflexivity|]. destruct (g_fresh _ G E) as (_ & _ & Hm). congruence. }
   assert (Hlk : forall X, threads X = [] -> locked X = false) by (intros X E; unfold locked; rewrite E; reflexivity).
@@ -657,10 +658,17 @@ Qed.
 
 Lemma step_call : forall st t c st' evs,
   step st (ACall t c) = Some (st', evs) ->
-  evs = [Ca t c] /\ exists pc, threads st' = {| th_id := t; th_cmd := c; th_pc := pc |} :: threads st
-                               /\ (pc = TCalled \/ pc = TStart).
+  evs = [Ca t c] /\
+  threads st' = {| th_id := t; th_cmd := c; th_pc := if is_create c then TStart else TCalled |} :: threads st /\
+  created st = negb (is_create c) /\ tid_bound st <= t /\ tid_bound st' = S t.
 Proof.
-  intros st t c st' evs H. cbn in H. crunch; (split; [reflexivity|]); eexists; (split; [reflexivity|]); auto.
+  intros st t c st' evs H. cbn in H.
+  destruct (Nat.leb (tid_bound st) t) eqn:Eb; [|discriminate]. apply Nat.leb_le in Eb.
+  destruct c; cbn;
+    try (destruct (created st) eqn:Ec; [|discriminate];
+         destruct (negb (existsb (fun th => is_create (th_cmd th)) (threads st))); [|discriminate];
+         inv H; repeat split; auto);
+    destruct (created st) eqn:Ec; [discriminate|]; inv H; repeat split; auto.
 Qed.
 
 Lemma step_return : forall st t st' evs,
@@ -679,4 +687,40 @@ Proof.
   intros. unfold ids. rewrite !in_map_iff. split.
   - intros (x & <- & Hx). apply in_remove_thread in Hx. destruct Hx. split; eauto.
   - intros [(x & <- & Hx) Hne]. exists x. split; [reflexivity|]. apply in_remove_thread. auto.
+Qed.
+
+Lemma step_bound : forall st a st' evs,
+  step st a = Some (st', evs) -> (forall t c, a <> ACall t c) -> tid_bound st' = tid_bound st.
+Proof.
+  intros st a st' evs H Hnc.
+  destruct a; try (exfalso; eapply Hnc; reflexivity).
+  all: try solve [unfold_steps H; crunch; reflexivity].
+  cbn in H. destruct (loop st) as [l|] eqn:El; [|discriminate].
+  destruct (loop_step_frame _ _ _ _ _ H) as [F _]. apply (fr_bound _ _ F).
+Qed.
+
+Lemma keys_transfer : forall st st' th',
+  keys (threads st') = keys (threads st) -> In th' (threads st') ->
+  exists x, In x (threads st) /\ th_id x = th_id th' /\ th_cmd x = th_cmd th'.
+Proof.
+  intros st st' th' Hk Hin.
+  assert (In (th_id th', th_cmd th') (keys (threads st'))) as H by (unfold keys; apply in_map_iff; eauto).
+  rewrite Hk in H. unfold keys in H. apply in_map_iff in H. destruct H as (x & E & Hx). inv E. eauto.
+Qed.
+
+
+Lemma action_eq_dec_nm : forall a : action, {a = ANewManager} + {a <> ANewManager}.
+Proof. intro a. destruct a; try (right; discriminate). left. reflexivity. Qed.
+
+Lemma action_eq_dec_oa : forall a : action, {a = AObserveA} + {a <> AObserveA}.
+Proof. intro a. destruct a; try (right; discriminate). left. reflexivity. Qed.
+
+Lemma in_find_thread_nodup : forall ths th, NoDup (ids ths) -> In th ths -> find_thread (th_id th) ths = Some th.
+Proof.
+  induction ths as [|x rest IH]; intros th Hnd Hin; [destruct Hin|].
+  cbn in Hnd. inv Hnd. cbn. destruct Hin as [->|Hin].
+  - rewrite Nat.eqb_refl. reflexivity.
+  - destruct (Nat.eqb (th_id x) (th_id th)) eqn:E.
+    + apply Nat.eqb_eq in E. exfalso. apply H1. rewrite E. apply in_map. exact Hin.
+    + apply IH; assumption.
 Qed.
